@@ -11,7 +11,7 @@
     arrival orders of the batches of every REMEMBER and SHOW, any number of remembered queries and SHOWs.
 
     KnownClass (decidable, computed by [classes_of] in the state an operation is applied to):
-    [PayloadTimeField], [LimitNotReapplied], [MarkOfLastFrame], [EventNotAboveMark], [RawStreamDuplicates],
+    [PayloadTimeField], [LimitNotReapplied], [EventNotAboveMark], [RawStreamDuplicates],
     [SegmentOlderThanEvent], [InterruptedRefresh]. *)
 From Coq Require Import NArith List Bool Permutation.
 From Snel Require Import Model.Materialize Proofs.MaterializeProofs.
@@ -28,15 +28,35 @@ Theorem C14_show_eq_query_reach : forall st name ch st' out nf m c,
 Proof. exact show_eq_query_reach. Qed.
 Print Assumptions C14_show_eq_query_reach.
 
-(** The same with the SHOW itself outside the classes (the form the history theorem below iterates). *)
-Theorem C14_show_eq_query_core : forall st name ch st' out nf m c,
-  reach st ->
-  classes_of st (OShow name ch) = [] ->
-  step st (OShow name ch) = (st', ObsShow out nf m c) ->
-  exists en, lookup name (st_entries st) = Some en /\
-    Permutation out (sel (n_q en) (st_layout st)) /\ NoDup (map e_k out).
-Proof. exact show_eq_query_core. Qed.
-Print Assumptions C14_show_eq_query_core.
+(** Since c71d768 (the mark of a store is the maximum over its frames) the arrival order of the batches is no class
+    any more: the mark dominates every stored row whatever the order of the frames … *)
+Theorem C14_mark_dominates_every_row : forall fs f e,
+  In f fs -> In e f -> mle (ekey e) (frames_mark fs) = true.
+Proof. exact frames_mark_ge_row. Qed.
+Print Assumptions C14_mark_dominates_every_row.
+
+(** … a SHOW never falls into a known class, and a REMEMBER only through its query (payload time field, LIMIT):
+    for a query on the core timestamp without LIMIT, REMEMBER and SHOW are good operations for EVERY admissible
+    arrival order of their batches. *)
+Theorem C14_any_arrival_order : forall st name q ch,
+  (forall c, In c (classes_of st (ORemember name q ch)) ->
+     (c = PayloadTimeField /\ q_tf q = TPayload) \/ (c = LimitNotReapplied /\ q_limit q <> None)) /\
+  (q_tf q = TCore -> q_limit q = None -> good_op st (ORemember name q ch)) /\
+  good_op st (OShow name ch) /\
+  (forall c, In c (classes_of st (OShowFail name ch)) -> c = InterruptedRefresh).
+Proof.
+  intros st name q ch. split; [apply remember_classes|]. split; [apply remember_good|].
+  split; [apply show_good|apply showfail_classes].
+Qed.
+Print Assumptions C14_any_arrival_order.
+
+(** the history that was the MarkOfLastFrame witness (memtable batch stored before the segment batch): no class,
+    admissible, every SHOW an answer *)
+Theorem C14_former_MarkOfLastFrame_witness_exact :
+  classes_along init w_lastframe = [] /\ ~ In ObsBadChoice (run init w_lastframe) /\ shows_ok_b init w_lastframe = true
+  /\ no_known init w_lastframe.
+Proof. exact former_lastframe_witness_now_exact. Qed.
+Print Assumptions C14_former_MarkOfLastFrame_witness_exact.
 
 (** The invariant behind it: the stored frames of every remembered query are exactly the matching events at
     or below its mark. *)
@@ -64,9 +84,8 @@ Print Assumptions C14_monotone_clock_suffices.
 
 (** Repeating SHOW with no new data returns the same rows, appends no frame and leaves the mark. *)
 Theorem C14_show_idempotent : forall st name ch1 ch2 st1 out1 nf1 m1 c1 st2 out2 nf2 m2 c2,
-  reach st -> good_op st (OShow name ch1) ->
+  reach st ->
   step st (OShow name ch1) = (st1, ObsShow out1 nf1 m1 c1) ->
-  classes_of st1 (OShow name ch2) = [] ->
   step st1 (OShow name ch2) = (st2, ObsShow out2 nf2 m2 c2) ->
   Permutation out2 out1 /\ nf2 = [] /\ m2 = m1 /\ c2 = c1.
 Proof. exact show_idempotent. Qed.
@@ -135,9 +154,6 @@ Proof. exact show_eq_query_refuted. Qed.
 Print Assumptions C14_show_eq_query_refuted.
 
 (** one witness per class, in which no other class occurs and every arrival order is admissible *)
-Theorem C14_refuted_MarkOfLastFrame : witness_of MarkOfLastFrame w_lastframe.
-Proof. exact show_eq_query_refuted_lastframe. Qed.
-Print Assumptions C14_refuted_MarkOfLastFrame.
 Theorem C14_refuted_PayloadTimeField_dup : witness_of PayloadTimeField w_payload_dup.
 Proof. exact show_eq_query_refuted_payload_dup. Qed.
 Print Assumptions C14_refuted_PayloadTimeField_dup.
